@@ -204,16 +204,49 @@ fn book_script(r: &mut SimRng) -> Vec<PyCall> {
                 }
             }
             7 => {
-                // Python writes, Rust loads (and the Rust side drives on with the loaded object)
+                // Python writes, Rust loads (and the Rust side drives on with the loaded object). Two path names are shared by
+                // both directions and re-used within a run (files are removed only at the end of the run): a checkpoint
+                // written over an older one must hold the current book.
                 g.snaps += 1;
                 let pretty = g.r.chance(0.5);
-                g.calls.push(call(o, "save_json_snapshot", vec![json!(format!("@py_snap_{}.json", g.snaps)), json!(pretty)]));
+                let name = format!("@snap_{}.json", 1 + g.r.below(2));
+                g.calls.push(call(o, "save_json_snapshot", vec![json!(name.clone()), json!(pretty)]));
+                if g.r.chance(0.4) {
+                    // checkpoint again after nothing but clock / trading-switch changes (no order activity in between)
+                    for _ in 0..g.r.range(1, 2) {
+                        if g.r.chance(0.5) {
+                            let t = g.m.t + *g.r.pick(&[1u64, 4, 1000]);
+                            if t < (1u64 << 63) {
+                                g.m.set_time(t);
+                                g.calls.push(call(o, "set_time", vec![json!(t)]));
+                            }
+                        } else {
+                            trading_now = !trading_now;
+                            if trading_now {
+                                g.m.enable_trading()
+                            } else {
+                                g.m.disable_trading()
+                            }
+                            g.calls.push(call(o, if trading_now { "enable_trading" } else { "disable_trading" }, vec![]));
+                        }
+                    }
+                    g.snaps += 1;
+                    let pretty2 = if g.r.chance(0.7) { pretty } else { !pretty };
+                    g.calls.push(call(o, "save_json_snapshot", vec![json!(name), json!(pretty2)]));
+                    // the continuation reveals the restored trading flag and clock: a crossing order and a market order
+                    let (bid, vol, trader, _) = g.new_order();
+                    if let Ok(id) = g.m.create(bid, vol, trader, None) {
+                        g.m.place(id);
+                    }
+                    g.calls.push(call(o, "place_order", vec![json!(bid), json!(vol), json!(trader), Value::Null]));
+                }
             }
             _ => {
                 // Rust writes, Python loads and drives on with the loaded object
                 g.snaps += 1;
                 let pretty = g.r.chance(0.5);
-                g.calls.push(PyCall { k: "load_book".into(), o: o.into(), m: o.into(), a: vec![json!(format!("@rs_snap_{}.json", g.snaps)), json!(pretty)] });
+                let name = format!("@snap_{}.json", 1 + g.r.below(2));
+                g.calls.push(PyCall { k: "load_book".into(), o: o.into(), m: o.into(), a: vec![json!(name), json!(pretty)] });
             }
         }
     }
